@@ -65,13 +65,13 @@ theorem src_vals_cons {fuel : Nat} {e : Expr} {rest : List Expr} {c : SCfg} {res
 theorem assignedValues_semF {ctx : Ctx} {T : List FEntry} {B : Nat} (hT : TableOK T) (hctx : CtxOK ctx T B) (count : Nat) (hcnt : count > 1) :
     ∀ (vals : List Expr) (i : Nat) (s : St) (ts : List String) (s' : St), fragEs (tnames T) vals = true → ctxOf s = ctx →
       assignedValues conv count vals vals.length i s = .ok (ts, s') →
-      ∃ new n, s' = adv s new n ∧ ts = tmpTextsF ctx i vals.length ∧ LinesOK ctx 0 (tnames T) new ∧
+      ∃ new n rq, s' = reqSt (adv s new n) rq ∧ ts = tmpTextsF ctx i vals.length ∧ LinesOK ctx 0 (tnames T) new ∧
         ∀ fuel c res, evalVals fuel vals c = some res → ∀ m, Inv ctx T c m → RunsV ctx T B new i m res
   | [], i, s, ts, s', _, _, h => by
     simp only [List.length_nil] at h
     unfold assignedValues at h
     obtain ⟨ev, es⟩ := pure_ok h
-    refine ⟨[], 0, es, ev, LinesOK.nil _ _ _, ?_⟩
+    refine ⟨[], 0, Req.none, by rw [es, reqSt_none]; rfl, ev, LinesOK.nil _ _ _, ?_⟩
     intro fuel c res hs m hi
     cases fuel with
     | zero => simp [evalVals] at hs
@@ -88,18 +88,18 @@ theorem assignedValues_semF {ctx : Ctx} {T : List FEntry} {B : Nat} (hT : TableO
     obtain ⟨v, s2, hv, g2⟩ := bind_ok g1
     obtain ⟨vs', s3, hvs, g3⟩ := bind_ok g2
     obtain ⟨ev, es⟩ := pure_ok g3
-    obtain ⟨new1, n1, e1, sim1⟩ := expr_semF hT hctx e s r s1 hf.1 hc h1
+    obtain ⟨new1, n1, r1, e1, sim1⟩ := expr_semF hT hctx e s r s1 hf.1 hc h1
     subst e1
     have sim1' := esim_first sim1
-    have hv' : (do varAssignment (s!"_ma{i}") (firstValue r) false; varEvaluation (s!"_ma{i}") false : BM String) (adv s new1 n1) = .ok (v, s2) := hv
+    have hv' : (do varAssignment (s!"_ma{i}") (firstValue r) false; varEvaluation (s!"_ma{i}") false : BM String) (reqSt (adv s new1 n1) r1) = .ok (v, s2) := hv
     simp only [varAssignment, varEvaluation, bind, Tr.get, addLine, Tr.modify, pure, varEvalString, varName_upd] at hv'
-    rw [varName_ctx, ctxOf_adv, hc] at hv'
+    rw [varName_ctx, ctxOf_reqSt, ctxOf_adv, hc] at hv'
     injection hv' with hv'
     injection hv' with ev2 es2
     have hc2 : ctxOf s2 = ctx := by rw [← es2]; exact hc
-    obtain ⟨new3, n3, e3, ets, hl3, sem3⟩ := assignedValues_semF hT hctx count hcnt rest (i + 1) s2 vs' s3 hf.2 hc2 hvs
-    refine ⟨new3 ++ (Line.assign (ctx.tn i) (firstValue r) :: new1), n1 + n3, ?_, ?_, ?_, ?_⟩
-    · rw [es, e3, ← es2]; simp [adv, Nat.add_assoc]; rfl
+    obtain ⟨new3, n3, r3, e3, ets, hl3, sem3⟩ := assignedValues_semF hT hctx count hcnt rest (i + 1) s2 vs' s3 hf.2 hc2 hvs
+    refine ⟨new3 ++ (Line.assign (ctx.tn i) (firstValue r) :: new1), n1 + n3, r1.or r3, ?_, ?_, ?_, ?_⟩
+    · rw [es, e3, ← es2]; simp [adv, reqSt, Req.or, Nat.add_assoc, Bool.or_assoc]; rfl
     · rw [ev, ets, ← ev2]; simp [tmpTextsF, Ctx.tn]; rfl
     · refine hl3.append (LinesOK.cons ⟨fun y hy => ?_, fun nm ar e' => (by cases e'), rfl⟩ sim1.lines)
       simp only [lineTargets, List.mem_singleton] at hy
@@ -203,13 +203,13 @@ theorem assignN_semF {ctx : Ctx} {T : List FEntry} {B : Nat} (hT : TableOK T) (h
   unfold assignValues at h
   obtain ⟨values, s1, h1, h2⟩ := bind_ok h
   rw [hlen] at h1
-  obtain ⟨new1, n1, e1, ets, hl1, sem1⟩ := assignedValues_semF hT hctx vals.length (by omega) vals 0 s values s1 hf hc h1
+  obtain ⟨new1, n1, r1, e1, ets, hl1, sem1⟩ := assignedValues_semF hT hctx vals.length (by omega) vals 0 s values s1 hf hc h1
   subst e1
   rw [ets, ← hlen, storeValues_run] at h2
   injection h2 with h2
   injection h2 with _ e2
-  refine ⟨new1.reverse.map Cmd.simple ++ (storeLines ctx vars (tmpTextsF ctx 0 vars.length)).map Cmd.simple, n1, 0, ?_, ?_, ?_⟩
-  · rw [← e2, flats_append, flats_simples, flats_simples, ctxOf_adv, hc]; simp [adv, adv2]
+  refine ⟨new1.reverse.map Cmd.simple ++ (storeLines ctx vars (tmpTextsF ctx 0 vars.length)).map Cmd.simple, n1, 0, r1, ?_, ?_, ?_⟩
+  · rw [← e2, flats_append, flats_simples, flats_simples, ctxOf_reqSt, ctxOf_adv, hc]; simp [adv, adv2, reqSt]
   · rw [flats_append, flats_simples, flats_simples]
     exact ((hl1.reverse).mono (Nat.zero_le _)).append (storeLines_ok ctx _ _ vars _ hg)
   · intro fuel c o c' hs m hi
